@@ -4,6 +4,7 @@ from .selftest import Mutant
 T = "pydrobert.torch.training"
 DL = "pydrobert.torch._dataloaders"
 DS = "pydrobert.torch._datasets"
+FE = "pydrobert.torch._feats"
 
 MUTANTS = [
     # ---- C16 -------------------------------------------------------------------------
@@ -115,5 +116,71 @@ MUTANTS = [
     ]),
     Mutant("c14-ali-sizes-from-refs", "C14", DL, [
         ("    feat_sizes = torch.tensor([x.size(0) for x in feats])", "    feat_sizes = torch.tensor([max(x.size(0) - 1, 1) for x in feats])"),
+    ]),
+    # ---- C12 -------------------------------------------------------------------------
+    Mutant("c12-ali-tolerance-off-by-one", "C12", DS, [
+        ("if fix is not None and T + fix >= ali.shape[0] > T:", "if fix is not None and T + fix > ali.shape[0] > T:"),
+    ]),
+    Mutant("c12-ref-tolerance-off-by-one", "C12", DS, [
+        ("if fix is not None and r[1] <= T >= r[2] - fix:", "if fix is not None and r[1] <= T >= r[2] - fix - 1:"),
+    ]),
+    Mutant("c12-rejects-empty-segments", "C12", DS, [
+        ("                            elif r[2] < r[1]:\n                                raise ValueError(msg)", "                            elif r[2] <= r[1]:\n                                raise ValueError(msg)"),
+    ]),
+    Mutant("c12-half-open-fix-keeps-end", "C12", DS, [
+        ("                                    r[1:] = -1\n", "                                    r[1] = -1\n"),
+    ]),
+    Mutant("c12-ref-fix-not-written", "C12", DS, [
+        ("                if write_back:\n                    torch.save(ref, os.path.join(dir_, fn))", "                if False:\n                    torch.save(ref, os.path.join(dir_, fn))"),
+    ]),
+    Mutant("c12-width-not-checked", "C12", DS, [
+        ("        elif validate and F != num_filts:", "        elif False and F != num_filts:"),
+    ]),
+    Mutant("c12-prefix-ignored-in-discovery", "C12", DS, [
+        ("        if x.startswith(file_prefix) and x.endswith(file_suffix)\n    )", "        if x.endswith(file_suffix)\n    )"),
+    ]),
+    Mutant("c12-hyp-strips-first-sos", "C12", DS, [
+        ("            sos_idx = sos_idxs[-1].item()", "            sos_idx = sos_idxs[0].item()"),
+    ]),
+    Mutant("c12-hyp-keeps-eos", "C12", DS, [
+        ("            hyp = hyp[:eos_idx]", "            hyp = hyp[: eos_idx + 1]"),
+    ]),
+    Mutant("c12-segs-counts-frames", "C12", DS, [
+        ("                    segs[class_idx] = segs.get(class_idx, 0) + 1", "                    segs[class_idx] = segs.get(class_idx, 0) + count"),
+    ]),
+    Mutant("c12-revert-D16-total-tokens", "C12", DS, [
+        ("            if info:\n                info_dict.setdefault(\"total_tokens\", 0)\n", ""),
+    ]),
+    Mutant("c12-revert-D18-fix-zero", "C12", "pydrobert.torch.command_line", [
+        ("options.strict or options.fix is not None, options.fix", "options.strict or options.fix, options.fix"),
+    ]),
+    Mutant("c12-revert-D6-empty-2d-ref", "C12", DS, [
+        ("            sos_sym = ref.new_full((1, ref.size(1)), -1)\n            sos_sym[0, 0] = sos\n            ref = torch.cat([sos_sym, ref], 0)",
+         "            sos_sym = torch.full_like(ref[0], -1)\n            sos_sym[0] = sos\n            ref = torch.cat([sos_sym.unsqueeze(0), ref], 0)"),
+    ]),
+    Mutant("c12-mixed-ref-dims-accepted", "C12", DS, [
+        ("                    if ref_is_2d is False:\n                        raise ValueError(", "                    if ref_is_2d is None:\n                        raise ValueError("),
+    ]),
+    # ---- C18 -------------------------------------------------------------------------
+    Mutant("c18-count-per-chunk", "C18", FE, [
+        ("        count += x.size(1)", "        count += 1"),
+    ]),
+    Mutant("c18-bessel-inverted", "C18", FE, [
+        ("            var *= count / (count - 1)", "            var *= (count - 1) / count"),
+    ]),
+    Mutant("c18-accumulate-flattens-wrong-axis", "C18", FE, [
+        ("        x = x.transpose(0, self.dim).unsqueeze(-1).flatten(1)\n        count += x.size(1)", "        x = x.transpose(-1, self.dim).unsqueeze(-1).flatten(1)\n        count += x.size(1)"),
+    ]),
+    Mutant("c18-sumsq-not-squared", "C18", FE, [
+        ("        sumsq += x.square().sum(1)", "        sumsq += x.abs().sum(1)"),
+    ]),
+    Mutant("c18-command-shares-one-accumulator", "C18", "pydrobert.torch.command_line", [
+        ("            gid2mvn[gid] = mvn = modules.MeanVarianceNormalization(options.dim)", "            mvn = gid2mvn.setdefault('_shared', None) or modules.MeanVarianceNormalization(options.dim)\n            gid2mvn['_shared'] = None\n            for g_ in list(gid2mvn):\n                gid2mvn[g_] = mvn if g_ != '_shared' else None"),
+    ]),
+    Mutant("c18-own-stats-unbiased", "C18", FE, [
+        ("std = x.transpose(0, dim).unsqueeze(-1).flatten(1).double().std(1, False)", "std = x.transpose(0, dim).unsqueeze(-1).flatten(1).double().std(1, True)"),
+    ]),
+    Mutant("c18-interim-store-resets", "C18", FE, [
+        ("        if delete_stats:\n            self.sum = self.sumsq = self.count = None", "        self.sum = self.sumsq = self.count = None"),
     ]),
 ]
